@@ -9,6 +9,7 @@ import PlinioVerif.Model.Integer
 * `w bits=<p> w=[q,..]`                                        -> `[n,..]`   weight levels of one channel
 * `b sa=<q> sw=[q,..] b=[q,..]`                                -> `[n,..]`   integer biases
 * `stuff d=<n> w=[n,..]`                                       -> `[n,..]`
+* `sb s=[n,..] nb=[n,..]`                                      -> `[n,..]`   scaled bias `int_bias * scale`
 * `pad p0=<n> p1=<n> v=<n> x=[[n,..],..]`                      -> `[[n,..],..]`   MAUPITI padding of one channel
 * `match p=<n> sh=<n> s=[n,..] nb=[n,..] acc=[[n,..],..]`      -> `[[n,..],..]`   one list per channel
 * `maupiti pin=<n> pout=<n> sh=<n> s=[..] nb=[..] wsum=[..] acc=[[..],..]`
@@ -72,6 +73,10 @@ def handle (line : String) : String :=
   | some "stuff" =>
     match nat "d", ints "w" with
     | some d, some w => showInts (stuff d w)
+    | _, _ => "bad-request"
+  | some "sb" =>
+    match ints "s", ints "nb" with
+    | some ss, some nbs => showInts ((nbs.zip ss).map (fun (nb, s) => nb * s))
     | _, _ => "bad-request"
   | some "pad" =>
     match nat "p0", nat "p1", (field? toks "v").bind parseInt?, ints2 "x" with
